@@ -126,6 +126,23 @@ func check(v *tlx.Val) (skipped bool, err error) {
 	return
 }
 
+var pool hx.Pool[Case]
+
+// again evaluates a recorded case without touching the statistics (concurrent phase).
+func again(c Case) error {
+	d := sch.ByName[c.Def]
+	if d == nil {
+		return fmt.Errorf("INFRA: unknown definition %s", c.Def)
+	}
+	g := &tlx.AGen{Sch: sch, S: &tlx.Replay{Draws: c.Draws}, MaxDepth: c.Depth, Big: c.Big, ForceBits: c.ForceBits, StrLen: c.StrLen}
+	v, err := g.Val(d, c.Depth)
+	if err != nil {
+		return fmt.Errorf("INFRA: generator: %v", err)
+	}
+	_, err = check(v)
+	return err
+}
+
 func evaluate(c *Case, src tlx.Src) error {
 	if strings.HasPrefix(c.Def, "special:") {
 		return special(c, src)
@@ -451,6 +468,16 @@ func TestC02(t *testing.T) {
 				}
 				hx.Fail(t, run, c, err)
 			}
+			if !c.Big && !strings.HasPrefix(c.Def, "special:") && c.StrLen < 4096 {
+				pool.Add(*c)
+			}
 		})
+	})
+	if t.Failed() {
+		return
+	}
+	t.Run("concurrent", func(t *testing.T) {
+		// senders and the receive loop serialise and deserialise at the same time
+		hx.RunConcurrent(t, run, pool.Items, 8, run.Pick(2, 40), again)
 	})
 }
